@@ -81,8 +81,8 @@ ASSUME = ['x86-64 TSO only', 'TSC synchronised across CPUs (re-measured each run
           '(inconclusive) when calibration fails',
           'gcc sanitizer runtimes',
           'qsbr: threads are online while operating and offline while waiting at the barriers; the explicit resizer calls '
-          'cds_lfht_resize() from an ONLINE thread (like the library\'s own resize worker: the function runs read-side sections of '
-          'its own) and is offline otherwise; explicit resizer and AUTO_RESIZE are never combined',
+          'cds_lfht_resize() from an offline thread or from an online one (per call at random) and is offline otherwise; explicit '
+          'resizer and AUTO_RESIZE are not combined in one table',
           'episodes bound concurrency to 4 updaters per key; table sizes 1..1024 buckets',
           'full-table traversal is not specified as atomic: only residency / presence-interval clauses are checked for it']
 
@@ -92,17 +92,17 @@ def c05(tier, seed):
     q = tier == 'quick'
     s = 1 if q else 30
     out = []
-    out.append(_ep('ep-none', 'memb', 'plain', 'none', 200000 * s, timeout=200 * s))
-    out.append(_ep('ep-explicit', 'memb', 'plain', 'explicit', 200000 * s, timeout=200 * s))
-    out.append(_ep('ep-auto', 'memb', 'plain', 'auto', 150000 * s, timeout=200 * s))
-    out.append(_ep('ep-acct', 'memb', 'plain', 'acct', 120000 * s, timeout=200 * s))
-    out.append(_ep('ep-explicit-w4-callrcu', 'memb', 'plain', 'explicit', 150000 * s, workers=4, extra=['--reclaim=call_rcu'],
+    out.append(_ep('ep-none', 'memb', 'plain', 'none', 350000 * s, timeout=200 * s))
+    out.append(_ep('ep-explicit', 'memb', 'plain', 'explicit', 300000 * s, timeout=200 * s))
+    out.append(_ep('ep-auto', 'memb', 'plain', 'auto', 250000 * s, timeout=200 * s))
+    out.append(_ep('ep-acct', 'memb', 'plain', 'acct', 200000 * s, timeout=200 * s))
+    out.append(_ep('ep-explicit-w4-callrcu', 'memb', 'plain', 'explicit', 250000 * s, workers=4, extra=['--reclaim=call_rcu'],
                    timeout=200 * s, cpus=7))
-    out.append(_ep('ep-explicit-builtins', 'memb', 'builtins', 'explicit', 100000 * s, timeout=200 * s))
-    out.append(_ep('ep-explicit-asan', 'memb', 'asan', 'explicit', 40000 * s, timeout=300 * s))
-    out.append(_ep('ep-acct-asan', 'memb', 'asan', 'acct', 25000 * s, timeout=300 * s))
-    out.append(_ep('ep-explicit-tsan', 'memb', 'tsan', 'explicit', 15000 * s, timeout=400 * s))
-    out.append(_ep('ep-auto-tsan', 'memb', 'tsan', 'auto', 15000 * s, timeout=400 * s))
+    out.append(_ep('ep-explicit-builtins', 'memb', 'builtins', 'explicit', 150000 * s, timeout=200 * s))
+    out.append(_ep('ep-explicit-asan', 'memb', 'asan', 'explicit', 80000 * s, timeout=300 * s))
+    out.append(_ep('ep-acct-asan', 'memb', 'asan', 'acct', 50000 * s, timeout=300 * s))
+    out.append(_ep('ep-explicit-tsan', 'memb', 'tsan', 'explicit', 30000 * s, timeout=400 * s))
+    out.append(_ep('ep-auto-tsan', 'memb', 'tsan', 'auto', 25000 * s, timeout=400 * s))
     # known finding, driven on purpose (deterministic): add_unique / add_replace vs plain add of the same key
     out.append(case('finding-add_unique-vs-plain-add', 'lfht_conc', 'memb', 'plain',
                     ['--cfg=finding-add_unique-vs-plain-add', '--mode=finding-addu', '--placement=0'], cpus=2, timeout=120))
